@@ -563,6 +563,15 @@ func onePipe(o *opts, r *rng, s *summary, i int, pl *pipeline, distinct map[stri
 				t, w = p.do(Cmd{Kind: "status"}, sems, want(2, 6), nil, nil)
 				add(t, "status of stages sharing a plain input committed at different times")
 				s.count("history:shared-input;commit one;status")
+				// one run that visits the freshly committed sharer first and the other one after it:
+				// whether the shared file is up to date is a question about each stage's OWN record
+				for _, b := range sharers {
+					if b != a {
+						t, w = p.do(Cmd{Kind: "run", Targets: []string{a.file, b.file}}, sems, want(18, 23, 8, 9, 13), nil, nil)
+						add(t, "run of both sharers, the one just committed first")
+						break
+					}
+				}
 			}
 		}
 		if r.chance(1, 6) {
